@@ -101,6 +101,62 @@ Example C17_dial_addr_brackets_example :
   exists ep, endpoint_of (s2l "tls://localhost") (s2l "[::1]") = Ok ep /\ ep_dial ep = s2l "[::1]:853".
 Proof. eexists. split; vm_compute; reflexivity. Qed.
 
+(* --- EVERY socket an upstream may open ------------------------------------------------------------------ *)
+(* An upstream opens more than one socket: every transport re-dials its primary socket for each new connection, and
+   a udp upstream additionally retries a truncated (TC=1) reply over TCP.  [ep_sockets] lists every (network,
+   address) pair the upstream can hand to a dialer.  For ANY accepted address and ANY dial_addr: the list is the
+   primary socket plus, for the udp transport only, one tcp socket — and every one of them is given [ep_dial]. *)
+Theorem C17_every_socket : forall addr da ep,
+  endpoint_of addr da = Ok ep ->
+  ep_sockets ep =
+    (ep_net ep, ep_dial ep) :: match ep_scheme ep with SUdp => [(NTcp, ep_dial ep)] | _ => [] end /\
+  forall s, In s (ep_sockets ep) ->
+    snd s = ep_dial ep /\ (fst s = ep_net ep \/ (ep_scheme ep = SUdp /\ fst s = NTcp)).
+Proof. intros addr da ep H. split; [exact (sockets_shape _ _ _ H)|exact (sockets_same_target _ _ _ H)]. Qed.
+Print Assumptions C17_every_socket.
+
+(* On the grammar, no dial_addr: the primary socket exists, a udp upstream has its tcp retry socket, and EVERY
+   socket is dialled to join(host, port or default) on the transport's network (tcp for the retry). *)
+Theorem C17_all_sockets : forall st k h p path,
+  scheme_entry st k -> path_ok st path -> wf_host h = true -> wf_port_opt p = true ->
+  let sc := fst (fst k) in let h3 := snd k in
+  let target := join_host_port (host_name h) (port_or_default sc p) in
+  exists ep, endpoint_of (url_of st h p path) [] = Ok ep /\
+    In (expected_net sc h3, target) (ep_sockets ep) /\
+    (sc = SUdp -> In (NTcp, target) (ep_sockets ep)) /\
+    forall s, In s (ep_sockets ep) ->
+      snd s = target /\ (fst s = expected_net sc h3 \/ (sc = SUdp /\ fst s = NTcp)).
+Proof. exact all_sockets. Qed.
+Print Assumptions C17_all_sockets.
+
+(* With a dial_addr override: EVERY socket — the tcp retry of a udp upstream included — goes to the override (with
+   the scheme's default port when it has none); none goes to the URL host. *)
+Theorem C17_all_sockets_override : forall st k h p path dh dpo,
+  scheme_entry st k -> path_ok st path -> wf_host h = true -> wf_port_opt p = true ->
+  wf_host dh = true -> wf_port_opt dpo = true ->
+  let sc := fst (fst k) in let h3 := snd k in
+  let target := join_host_port (host_name dh) (port_or_default sc dpo) in
+  exists ep, endpoint_of (url_of st h p path) (dial_text dh dpo) = Ok ep /\
+    In (expected_net sc h3, target) (ep_sockets ep) /\
+    (sc = SUdp -> In (NTcp, target) (ep_sockets ep)) /\
+    forall s, In s (ep_sockets ep) ->
+      snd s = target /\ (fst s = expected_net sc h3 \/ (sc = SUdp /\ fst s = NTcp)).
+Proof. exact all_sockets_override. Qed.
+Print Assumptions C17_all_sockets_override.
+
+Example C17_example_sockets :
+  (match endpoint_of (s2l "udp://127.0.0.2:5353") (s2l "127.0.0.1:53") with
+   | Ok ep => Some (ep_sockets ep) | _ => None end) =
+    Some [(NUdp, s2l "127.0.0.1:53"); (NTcp, s2l "127.0.0.1:53")] /\
+  (match endpoint_of (s2l "dns.example") (s2l "::1") with
+   | Ok ep => Some (ep_sockets ep) | _ => None end) =
+    Some [(NUdp, s2l "[::1]:53"); (NTcp, s2l "[::1]:53")] /\
+  (match endpoint_of (s2l "tls+pipeline://dns.example") (s2l "192.0.2.1") with
+   | Ok ep => Some (ep_sockets ep) | _ => None end) = Some [(NTcp, s2l "192.0.2.1:853")] /\
+  (match endpoint_of (s2l "h3://dns.example/q") [] with
+   | Ok ep => Some (ep_sockets ep) | _ => None end) = Some [(NUdp, s2l "dns.example:443")].
+Proof. vm_compute. repeat split. Qed.
+
 (* --- certificate verification ---------------------------------------------------------------------------- *)
 (* crypto/x509 (chain building, name matching, validity period) are oracles; the theorems are the decision rule
    that makeTlsConfig + crypto/tls build around them. *)
@@ -143,6 +199,45 @@ Theorem C17_tls_config_fields : forall o rc c,
 Proof. exact tls_config_fields. Qed.
 Print Assumptions C17_tls_config_fields.
 
+(* --- a configured ca REPLACES the system roots ----------------------------------------------------------- *)
+(* Whatever the machine's system store trusts (chains_to SystemRoots is unconstrained): with `ca` configured and
+   verification on, a server certificate that does not chain to the configured ca is refused ... *)
+Theorem C17_ca_exclusive : forall (cert : Type) (chains_to : ca_pool -> cert -> bool)
+    (name_matches : cert -> list N -> bool) (time_valid : cert -> bool) o sni k,
+  o_ca o = true -> o_insecure o = false -> chains_to ConfiguredCA k = false ->
+  upstream_exchange_ok cert chains_to name_matches time_valid o sni (Some k) = false.
+Proof. exact ca_exclusive_upstream. Qed.
+Print Assumptions C17_ca_exclusive.
+
+(* ... and so is a client certificate on a listener with verify_client_cert *)
+Theorem C17_ca_exclusive_listener : forall (cert : Type) (chains_to : ca_pool -> cert -> bool)
+    (time_valid : cert -> bool) o k,
+  o_verify_client o = true -> chains_to ConfiguredCA k = false ->
+  listener_serves cert chains_to time_valid o (Some k) = false.
+Proof. exact ca_exclusive_listener. Qed.
+Print Assumptions C17_ca_exclusive_listener.
+
+(* "system roots only by default": with no ca configured the decision is x509 verification against the system roots *)
+Theorem C17_system_roots_default : forall (cert : Type) (chains_to : ca_pool -> cert -> bool)
+    (name_matches : cert -> list N -> bool) (time_valid : cert -> bool) o sni k,
+  o_ca o = false -> o_verify_client o = false -> o_insecure o = false ->
+  upstream_exchange_ok cert chains_to name_matches time_valid o sni (Some k) =
+    (chains_to SystemRoots k && time_valid k && name_matches k sni).
+Proof. exact system_roots_default. Qed.
+Print Assumptions C17_system_roots_default.
+
+(* makeTlsConfig, field by field (what the tlscfg kind compares with the real tls.Config): RootCAs is the configured
+   ca ALONE or nil (system roots); ClientCAs is the configured ca alone or nil *)
+Theorem C17_tls_config_pools : forall o rc,
+  tls_config_view o rc =
+    if rc && negb (o_cert_key o) then None
+    else if o_verify_client o && negb (o_ca o) then None
+    else Some (o_insecure o, (if o_ca o then ConfiguredCA else SystemRoots), o_cert_key o,
+               (if o_verify_client o then RequireAndVerifyClientCert else NoClientCert),
+               (if o_verify_client o then Some ConfiguredCA else None)).
+Proof. exact tls_config_pools. Qed.
+Print Assumptions C17_tls_config_pools.
+
 (* --- non-vacuity ---------------------------------------------------------------------------------------- *)
 Definition show (r : res endpoint) : option (netw * list N * option (list N) * option (list N)) :=
   match r with Ok e => Some (ep_net e, ep_dial e, ep_sni e, ep_host e) | _ => None end.
@@ -181,5 +276,10 @@ Example C17_example_tls :
   tls_listener_case (o true true false true) None = false /\
   tls_listener_case (o true true false true) (Some CUnknownCA) = false /\
   tls_listener_case (o true true false false) None = true /\
-  tls_listener_starts (o false true false true) = false.
+  tls_listener_starts (o false true false true) = false /\
+  (* chains to a system root, not to the configured ca: refused when a ca is configured, accepted by default *)
+  tls_upstream_case (o true false false false) (Some CSysRoot) = false /\
+  tls_upstream_case (o false false false false) (Some CSysRoot) = true /\
+  tls_upstream_case (o false false false false) (Some CSysRootWrongName) = false /\
+  tls_listener_case (o true true false true) (Some CSysRoot) = false.
 Proof. vm_compute. repeat split. Qed.
